@@ -1039,7 +1039,7 @@ pub fn handle(op: &str, a: &[&str]) -> Option<Resp> {
 
 // ------------------------------------------------------------------ generators
 
-pub const STARTS: [(&str, bool); 62] = [
+pub const STARTS: [(&str, bool); 66] = [
     ("", false),
     ("a", false),
     ("a (>= 1)", false),
@@ -1106,6 +1106,12 @@ pub const STARTS: [(&str, bool); 62] = [
     ("a (>= 1), b:any", false),
     ("a (>= 1) | b:any (<< 2)", false),
     ("a [amd64], b | c <!x>, ${x:y}", true),
+    // layouts the strict parser accepts around the optional parts: blanks / a line break before the
+    // qualifier's colon, after it, before the version
+    ("a :any", false),
+    ("a : any (>= 1), b", false),
+    ("a\n :any [amd64]", false),
+    ("a:any\n (>= 1) [ amd64 ]", false),
 ];
 
 fn op_pool() -> Vec<String> {
